@@ -125,15 +125,23 @@ def check_boolop(col, repo, si, m):
         if isinstance(g, ast.Call) and g.args:
             chk = resolve_name(fn, g.args[0])          # crep.cpp_value(check_expr, ...)
             if isinstance(chk, ast.Call) and call_name(chk) == "cpp_value":
-                ce = resolve_name(fn, chk.args[0])
-                if isinstance(ce, ast.IfExp):
-                    t = src(ce.test)
-                    res_var = src(acts[i2 + 1].arg.args[0]) if assign_inside else "?"
-                    pos, neg = (ce.body, ce.orelse) if ("ast.And" in t and "is not" not in t and "!=" not in t) else \
-                        ((ce.orelse, ce.body) if "ast.Or" in t and "is not" not in t and "!=" not in t else (None, None))
-                    if pos is not None:
-                        ok_pol = src(pos) == f"{res_var}.as_cpp()" and isinstance(neg, ast.JoinedStr) and \
-                            [v.value if isinstance(v, ast.Constant) else "{" + src(v.value) + "}" for v in neg.values] == ["!", "{" + res_var + ".as_cpp()}"]
+                # the text of the check under each operator: every definition of the expression with the (closed, positive-form) tests it
+                # stands under - an if/else, a conditional expression and a guard clause all read the same
+                from sa.props._tr import conditional_defs
+                res_var = src(acts[i2 + 1].arg.args[0]) if assign_inside else "?"
+                defs = conditional_defs(fn, chk.args[0])
+
+                def is_and(gs):
+                    return any(("ast.And" in t_ and v_) or ("ast.Or" in t_ and not v_) for t_, v_ in gs)
+
+                def is_or(gs):
+                    return any(("ast.Or" in t_ and v_) or ("ast.And" in t_ and not v_) for t_, v_ in gs)
+
+                pos = [v for v, gs in defs if is_and(gs) and not is_or(gs)]
+                neg = [v for v, gs in defs if is_or(gs) and not is_and(gs)]
+                if len(defs) == 2 and len(pos) == 1 and len(neg) == 1:
+                    from sa.core.templates import parts as _parts, shape as _shape
+                    ok_pol = src(pos[0]) == f"{res_var}.as_cpp()" and _shape(_parts(fn, neg[0])) == ["!", "{" + res_var + ".as_cpp()}"]
         col.add("C04.R1", f.short, "guard-polarity", ok_pol,
                 "`and` must continue only while the result so far is true (check = result), `or` only while it is false (check = !result)", f.loc)
     # result variable: bool, declared at entry before anything else, published
@@ -291,11 +299,20 @@ def check_first(col, repo, si, m):
     moves = [c for c in walk_no_nested(fn) if isinstance(c, ast.Call) and call_name(c) == "set_scope"]
     plain = [c for c in moves if any("cpp_sequence" in src(t) and not tr_ for t, tr_ in guards(fn, c, pmf_))]
     inside = False
-    if len(seqv) == 1 and len(plain) == 1:
-        tgt = plain[0].args[0]
-        names = {x.id for x in ast.walk(tgt) if isinstance(x, ast.Name)}
-        exprs = [tgt] + [d for nm in names for d in defs_of(fn, nm)]
-        inside = any(src(e).replace(" ", "") == f"{seqv[0]}.scope()" or f"{seqv[0]}.scope()" in src(e) for e in exprs)
+    if len(seqv) == 1 and 1 <= len(plain) <= 2:
+        # every place the cursor can be moved to for a plain element, with the tests it is chosen under (if/else, conditional expression
+        # and guard clause read the same): the sequence's own scope must be among them, chosen when it extends the value's scope
+        from sa.props._tr import conditional_defs
+        arms = []
+        for mv in plain:
+            gmv = frozenset((src(t), tr_) for t, tr_ in guards(fn, mv, pmf_))
+            for v, gs in conditional_defs(fn, mv.args[0]):
+                rv = resolve_name(fn, v)
+                arms.append((src(rv).replace(" ", ""), gs | gmv))
+        seq_arms = [(t_, gs) for t_, gs in arms if t_ == f"{seqv[0]}.scope()"]
+        other = [(t_, gs) for t_, gs in arms if t_ != f"{seqv[0]}.scope()"]
+        inside = len(seq_arms) == 1 and any(".starts_with(" in t_ and v_ for t_, v_ in seq_arms[0][1]) \
+            and all(any(".starts_with(" in t_ and not v_ for t_, v_ in gs) for _, gs in other)
     col.add("C04.R4", f.short, "guard-inside-the-sequence's-own-loop-and-filters", inside,
             "for a plain element the first-element block must be placed using the sequence's scope (seq.scope(), inside its loop and Where), "
             "not only the scope the value was computed in", f.loc)
